@@ -6,20 +6,31 @@
 pub struct Tape<'a> {
     data: &'a [u32],
     pos: usize,
+    cyclic: bool,
 }
 
 impl<'a> Tape<'a> {
     pub fn new(data: &'a [u32]) -> Self {
-        Tape { data, pos: 0 }
+        Tape { data, pos: 0, cyclic: false }
+    }
+    /// wraps around instead of running dry (an empty tape still yields zeros)
+    pub fn new_cyclic(data: &'a [u32]) -> Self {
+        Tape { data, pos: 0, cyclic: true }
     }
     pub fn exhausted(&self) -> bool {
-        self.pos >= self.data.len()
+        self.pos >= self.data.len() && !(self.cyclic && !self.data.is_empty())
     }
     pub fn used(&self) -> usize {
         self.pos.min(self.data.len())
     }
     pub fn raw(&mut self) -> u32 {
-        let v = self.data.get(self.pos).copied().unwrap_or(0);
+        let v = if self.cyclic && !self.data.is_empty() {
+            // decorrelate successive laps a little
+            let lap = (self.pos / self.data.len()) as u32;
+            self.data[self.pos % self.data.len()].rotate_left(lap % 32)
+        } else {
+            self.data.get(self.pos).copied().unwrap_or(0)
+        };
         self.pos += 1;
         v
     }
